@@ -72,6 +72,26 @@ FEATURE_NAME = {'continental_plate': 'continental plate', 'oceanic_plate': 'ocea
 G, TP, ALPHA, CP = 10.0, 1600.0, 3.5e-5, 1250.0
 
 
+# the ridge look-up behind the half-space and plate cooling models (and the mass-conserving slab)
+RFN = 'Utilities_calculate_ridge_distance_and_spreading'
+UNITS.append(dict(
+    name='ridge_distance', enforce=RFN, contracts='c05_ridge.c', harness='h_ridge',
+    targets=[dict(tu='source/world_builder/utilities.cc', qual='WorldBuilder::Utilities::calculate_ridge_distance_and_spreading')],
+    stub=['CoordinateSystems_Interface_distance_between_points_at_same_depth', 'CoordinateSystems_Interface_natural_coordinate_system'],
+    nothrow=['CoordinateSystems_Interface_distance_between_points_at_same_depth', 'CoordinateSystems_Interface_natural_coordinate_system'],
+    outline_fp='all', unwind_complete=4, defines={'WB_VEC_CAP': 3, 'WB_CAP_vec_double': 4}, expect_fail=['REACHABILITY-GUARD'], timeout=900,
+    inserts=[(r'double compare_distance = compare_distance1;', 'RIDGE_LEMMA'),
+             (r'struct vec_double result = vec_double_new_empty\(\);', 'RIDGE_FINAL'),
+             (r'\{\n\s*unsigned int i_coordinate = ', 'RIDGE_NSEG')],
+    loops={(RFN, 1): dict(contract='__CPROVER_assigns(relevant_ridge)\n'
+                                   '__CPROVER_loop_invariant((unsigned long)relevant_ridge <= mid_oceanic_ridges.n - 1ul)\n'
+                                   '__CPROVER_decreases((mid_oceanic_ridges.n - 1ul) - (unsigned long)relevant_ridge)'),
+           (RFN, 2): dict(contract='__CPROVER_assigns(i_coordinate, distance_ridge, spreading_velocity_at_ridge, subducting_velocity_at_trench, ridge_migration_time, wb_thrown, g_seen, g_cdk1, g_cdk2)\n'
+                                   '__CPROVER_loop_invariant((unsigned long)i_coordinate <= g_nseg && g_nseg == mid_oceanic_ridges.data[relevant_ridge].n - 1ul && (unsigned long)relevant_ridge < mid_oceanic_ridges.n && !wb_thrown)\n'
+                                   '__CPROVER_loop_invariant(g_seen == (g_k < i_coordinate) && distance_ridge >= 0.0)\n'
+                                   '__CPROVER_loop_invariant(g_seen ==> (distance_ridge <= g_cdk1 && distance_ridge <= g_cdk2))\n'
+                                   '__CPROVER_decreases(g_nseg - (unsigned long)i_coordinate)')}))
+
 def adiab(z, tp=TP, alpha=ALPHA, cp=CP):
     return tp * math.exp(alpha * G * z / cp)
 
@@ -177,7 +197,63 @@ def fault_oracle(kind, work, rnd):
     return dict(status='holds', detail='6 vertical-fault worlds x 25 points agree with the documented %s model' % kind)
 
 
+def ridge_oracle(work):
+    """calculate_ridge_distance_and_spreading of the real library against the clamp/interpolate rule, for the query point
+    and for its 360-degree copy (spherical worlds: the copy is the closer one across the date line)"""
+    import oracle, subprocess
+    exe, info = oracle.tool('ridge')
+    os.makedirs(work, exist_ok=True)
+    wb = os.path.join(work, 'ridge_sph.wb')
+    open(wb, 'w').write('{"version":"1.1", "coordinate system":{"model":"spherical", "depth method":"starting point"}, "features":[]}')
+    D = math.pi / 180
+    R0 = 6371000.0
+
+    def cart(lon, lat):
+        return (R0 * math.cos(lat) * math.cos(lon), R0 * math.cos(lat) * math.sin(lon), R0 * math.sin(lat))
+    cases = []
+    # ridge 170E -> 175E on the equator; spreading velocity 0.02 -> 0.04 m/yr, subducting velocity 0.06 -> 0.08 m/yr
+    ridge = [(170 * D, 0.0, 0.02, 0.06), (175 * D, 0.0, 0.04, 0.08)]
+    for lon in [-178, -170, 177, 172.5, 160, 171]:
+        cases.append((lon * D, 0.0, ridge))
+    # ridge across the date line, 175E -> 185E: western-hemisphere queries reach it through their +360 degree copy
+    ridge2 = [(175 * D, 0.0, 0.02, 0.06), (185 * D, 0.0, 0.04, 0.08)]
+    for lon in [-178, -176.5, 179, 176, -170]:
+        cases.append((lon * D, 0.0, ridge2))
+    lines = []
+    for lon, lat, rg in cases:
+        x, y, z = cart(lon, lat)
+        lines.append('q %r %r %r %d ' % (x, y, z, len(rg)) + ' '.join('%r %r %r %r' % t for t in rg))
+    r = subprocess.run([exe, wb], input='\n'.join(lines) + '\n', capture_output=True, text=True, cwd=work)
+    out = r.stdout.strip().split('\n')
+    if not out or out[0] != 'OK':
+        return dict(status='error', detail='ridge tool: %s' % (out[:1],))
+    YEAR = 60.0 * 60.0 * 24.0 * 365.25
+    for (lon, lat, rg), ans in zip(cases, out[1:]):
+        if ans.startswith('EXC'):
+            return dict(status='error', detail=ans)
+        vs, dist, vt, mt = [float.fromhex(t) for t in ans.split()]
+        # expected: nearest point of the segment (equator: longitude clamp), both velocities interpolated at the same fraction
+        l0, l1 = rg[0][0], rg[1][0]
+        best = None
+        for cand in (lon, lon + 2 * math.pi, lon - 2 * math.pi):
+            t = min(1.0, max(0.0, (cand - l0) / (l1 - l0)))
+            foot = l0 + t * (l1 - l0)
+            dd = abs((foot - lon + math.pi) % (2 * math.pi) - math.pi) * R0
+            if best is None or dd < best[0] - 1e-6:
+                best = (dd, t)
+        t = best[1]
+        es, eu = rg[0][2] + (rg[1][2] - rg[0][2]) * t, rg[0][3] + (rg[1][3] - rg[0][3]) * t
+        if abs(vs * YEAR - es) > 1e-9 or abs(vt * YEAR - eu) > 1e-9 or abs(dist - best[0]) > 1.0:
+            return dict(status='violated', input=dict(query_lon_deg=lon / D, ridge=[[a / D, b / D, c, d] for a, b, c, d in rg]),
+                        detail='ridge %gE..%gE (spreading 0.02..0.04, subducting 0.06..0.08 m/yr), query at longitude %g: expected nearest ridge point at fraction %g '
+                               '(distance %.0f m, spreading %g, subducting %g m/yr) but the library reports distance %.0f m, spreading %g, subducting %g m/yr'
+                               % (l0 / D, l1 / D, lon / D, t, best[0], es, eu, dist, vs * YEAR, vt * YEAR))
+    return dict(status='holds', detail='%d queries around a ridge near the date line agree with the clamp/interpolate rule' % len(cases))
+
+
 def native_oracle(witness, work, search_seed=None):
+    if witness.get('unit') == 'ridge_distance':
+        return ridge_oracle(work)
     fdir, kind = witness.get('family', 'continental_plate'), witness.get('kind', 'linear')
     if fdir == 'fault':
         return fault_oracle(kind, work, random.Random(search_seed if search_seed is not None else 1))
@@ -211,5 +287,7 @@ def native_oracle(witness, work, search_seed=None):
 
 
 def witness_from_trace(unit, failure, seed):
+    if '_T_' not in unit['name']:
+        return dict(unit=unit['name'])
     fdir, kind = unit['name'].split('_T_')
     return dict(family=fdir, kind=kind)
